@@ -45,6 +45,7 @@ type EQuant struct {
 }
 type ECond struct{ C, A, B Expr }
 type EStar struct{ X Expr } // *p (deref) or, as index, "all elements"
+type EAddr struct{ X Expr } // &lvalue
 
 // ---------------------------------------------------------------- lexer
 
@@ -119,7 +120,7 @@ func lex(s string) ([]tok, error) {
 			ts = append(ts, tok{"int", strconv.Itoa(int(v))})
 			i = j + 1
 		default:
-			ops := []string{"<==>", "==>", "::", "==", "!=", "<=", ">=", "&&", "||", "<", ">", "+", "-", "*", "/", "%", "!", "(", ")", "[", "]", ".", ",", "?", ":", "{", "}", ";", "="}
+			ops := []string{"<==>", "==>", "::", "==", "!=", "<=", ">=", "&&", "||", "<", ">", "&", "+", "-", "*", "/", "%", "!", "(", ")", "[", "]", ".", ",", "?", ":", "{", "}", ";", "="}
 			matched := false
 			for _, op := range ops {
 				if strings.HasPrefix(s[i:], op) {
@@ -289,6 +290,13 @@ func (p *parser) parseUnary() (Expr, error) {
 				return nil, err
 			}
 			return EStar{x}, nil
+		case "&":
+			p.next()
+			x, err := p.parseUnary()
+			if err != nil {
+				return nil, err
+			}
+			return EAddr{x}, nil
 		}
 	}
 	return p.parsePostfix()
@@ -430,6 +438,9 @@ type LoopContract struct {
 }
 
 type FuncContract struct {
+	Guarded  []Clause // Label = "Type.field", E = mutex expression: lock discipline
+	Rely     []Clause // two-state relation every interference step of other goroutines satisfies
+	Shared   []string // ghost fields other goroutines may change (havocked at yield points under Rely)
 	Uses     []string // lemmas assumed in this function's VC (each discharged on its own)
 	Key      string
 	File     string
@@ -490,7 +501,7 @@ var keywords = map[string]bool{
 	"func": true, "stub": true, "property": true, "returns": true, "requires": true, "ensures": true,
 	"modifies": true, "inline": true, "trusted": true, "ghost": true, "loop": true, "invariant": true,
 	"decreases": true, "at": true, "lemma": true, "spec": true, "assume": true, "pragma": true, "axiom": true,
-	"before": true, "ghostfield": true, "uses": true,
+	"before": true, "ghostfield": true, "uses": true, "rely": true, "shared": true, "guarded": true,
 }
 
 func firstWord(s string) (string, string) {
@@ -760,6 +771,28 @@ func (sp *Specs) ParseSpecFile(path string) error {
 						cur.Modifies = append(cur.Modifies, c)
 					}
 				}
+			case "guarded":
+				// guarded <Type.field> by <expr>: the field may only be accessed while held(<expr>)
+				i := strings.Index(rest, " by ")
+				if i < 0 {
+					return fail(fmt.Errorf("guarded: want 'guarded Type.field by <mutex expr>'"))
+				}
+				c, err := parseClause(rest[i+4:], l.no, path)
+				if err != nil {
+					return err
+				}
+				c.Label = strings.TrimSpace(rest[:i])
+				cur.Guarded = append(cur.Guarded, c)
+			case "rely":
+				c, err := parseClause(rest, l.no, path)
+				if err != nil {
+					return err
+				}
+				cur.Rely = append(cur.Rely, c)
+			case "shared":
+				for _, u := range strings.Split(rest, ",") {
+					cur.Shared = append(cur.Shared, strings.TrimSpace(u))
+				}
 			case "uses":
 				for _, u := range strings.Split(rest, ",") {
 					cur.Uses = append(cur.Uses, strings.TrimSpace(u))
@@ -835,6 +868,12 @@ func (sp *Specs) ParseSpecFile(path string) error {
 						if kw == "assume" {
 							sp.Scan = append(sp.Scan, fmt.Sprintf("assume %q at %s in %s (%s:%d)", c.Text, ac.Anchor, cur.Key, shortPath(path), l.no))
 						}
+					case "havoc":
+						c, err := parseClause(r, l.no, path)
+						if err != nil {
+							return err
+						}
+						ac.Actions = append(ac.Actions, Action{Kind: "havoc", C: c})
 					case "apply":
 						c, err := parseClause(r, l.no, path)
 						if err != nil {
